@@ -184,6 +184,12 @@ def replay_exact(ctx):
         ctx.fails.append(g)
 
 
+# value classes of the input-representation class (harness/cmd/c05/repr.go)
+REPR_VALUES = ["zero", "in_range", "minus_one", "negative_in_signed_range", "min_signed", "max_signed", "max_unsigned",
+               "two_pow_w", "minus_two_pow_w", "positive_wider_than_argument", "negative_wider_than_argument",
+               "negative_word_boundary_magnitude", "positive_word_boundary_magnitude", "small_negative"]
+
+
 def run(ctx):
     ctx.prove("MpcVerif.Props.C05", THEOREMS)
     if ctx.tier == "thorough":
@@ -198,7 +204,12 @@ def run(ctx):
         n_co = 300 if quick else 5000
         n_upd = 200 if quick else 600
         n_lib = 160 if quick else 320
+        n_repr = 96 if quick else 200
         for s in seeds:
+            # class repr: input representations (harness/cmd/c05/repr.go): the texts fed to both streaming parties and to
+            # the whole-circuit reference are negative / oversized / word-boundary integers in every notation
+            ops, out, meta = ctx.run_hx("repr", n_repr, seed=s, timeout=1500)
+            ctx.absorb_meta(meta)
             # class lib: calls of the MPCL library's functions (catalogue read from $MPCLDIR/pkg at run time):
             # MPCL-implemented, native circuits (Circ instructions), compiler builtins (Builtin instructions)
             ops, out, meta = ctx.run_hx("oracle", n_lib, seed=s, tag="-lib", timeout=1500, extra_args=["-extra", "lib"])
@@ -229,6 +240,9 @@ def run(ctx):
             for line in open(ops, errors="replace"):
                 ctx.distinct.add(hashlib.sha1(line.encode()).digest())
         if ctx.widen:
+            ops, out, meta = ctx.run_hx("repr", 400, seed=ctx.seed + 7000, tag="-widen", timeout=1500)
+            ctx.absorb_meta(meta, prefix="widen_")
+        if ctx.widen:
             ops, out, meta = ctx.run_hx("oracle", 800, seed=ctx.seed + 7000, tag="-lib-widen", timeout=1500,
                                         extra_args=["-extra", "lib"])
             ctx.absorb_meta(meta, prefix="widen_")
@@ -249,7 +263,7 @@ def run(ctx):
         c = ctx.coverage.get("counters", {})
         ctx.coverage["programs"] = c.get("programs", 0)
         ctx.coverage["disagreements_checked"] = c.get("compared", 0)
-        ctx.evaluations += c.get("compared", 0)
+        ctx.evaluations += c.get("compared", 0) + c.get("repr_compared", 0)
         ctx.oblige("oracle compared at least 70% of the generated programs with the whole-circuit reference",
                    c.get("compared", 0) * 10 >= c.get("programs", 1) * 7, str(c))
         ctx.oblige("both wire-id encodings occurred inside single streaming sessions",
@@ -304,8 +318,32 @@ def run(ctx):
                    and all(c.get("feat_" + k, 0) > 0 for k in ("lib_dirty", "lib_two_calls", "lib_array_arg", "lib_unsized_arg",
                                                               "lib_round_0", "lib_round_1", "lib_corpus")),
                    str(lib))
+        rp = {k: v for k, v in c.items() if k.startswith("repr_")}
+        ctx.oblige("class repr (input representations): negative texts for int AND uint arguments, negative values beyond 64 "
+                   "bits for arguments over 64 bits, magnitudes wider than the argument, every value class (%s), struct, "
+                   "array, bool and unsized arguments at either party, array texts longer than the array (rejected by "
+                   "IOArg.Parse in BOTH modes), ideal and Chou-Orlandi OT; at least 85%% of the vectors were compared with "
+                   "the whole-circuit reference and the pass-through residues were checked" % ", ".join(REPR_VALUES),
+                   all(rp.get("repr_value_" + k, 0) > 0 for k in REPR_VALUES)
+                   and all(rp.get("repr_%s_arg_%s" % (side, k), 0) > 0 for side in ("garbler", "evaluator")
+                           for k in ("scalar", "struct", "array", "bool", "unsized"))
+                   and rp.get("repr_text_negative", 0) > 0 and rp.get("repr_negative_for_unsigned_argument", 0) > 0
+                   and rp.get("repr_negative_beyond_64_bits_for_argument_over_64_bits", 0) > 0
+                   and rp.get("repr_magnitude_wider_than_argument", 0) > 0
+                   and rp.get("repr_array_too_long_rejected_in_both_modes", 0) > 0
+                   and rp.get("repr_array_negative_decimal", 0) > 0 and rp.get("repr_unsized_negative_text", 0) > 0
+                   and rp.get("repr_ot_co", 0) > 0 and rp.get("repr_ot_ideal", 0) > 0
+                   and rp.get("repr_compared", 0) * 100 >= 85 * rp.get("repr_vectors", 1 << 30)
+                   and rp.get("repr_passthrough_checked", 0) > 0, str(rp))
     ctx.coverage["rule"] = (
-        "oracle: class lib (one main per exported function of $MPCLDIR/pkg whose signature is built from scalars and "
+        "oracle: class repr (mode repr: small programs returning every bit of both arguments plus a sum, a difference and "
+        "a comparison across the parties; arguments int / uint of 3..130 bits, bool, structs, integer arrays, unsized int / "
+        "uint; 5 (thorough 8) input vectors per program, the texts drawn from: " + ", ".join(REPR_VALUES) + " (wider: up "
+        "to 130 bits beyond the width; word boundaries 2^32, 2^63, 2^64, 2^65, 2^128 +-1) in decimal / 0x / 0b / 0o / "
+        "signed notation, array texts shorter than, as long as and longer than the array, negative array decimals; the "
+        "value class of a scalar argument walks through all classes; streaming garbler, streaming evaluator and the "
+        "whole-circuit reference must agree, an input rejected by one mode only is a disagreement, a scalar argument "
+        "returned unchanged must be the written integer's residue mod 2^w); class lib (one main per exported function of $MPCLDIR/pkg whose signature is built from scalars and "
         "integer arrays / slices - the catalogue is read from the library source of the tree under test, symbolic array "
         "sizes resolved from the packages' numeric constants; entry (i + seed) mod len for program i; unsized parameters "
         "wide in the first round, boundary-biased narrow widths later; values of the result's width die before the call "
